@@ -313,19 +313,21 @@ func TestVerifC10WorkloadDispatch(t *testing.T) {
 					entry, pfx, in, out = rules.ChainToWorkloadDispatch, rules.WorkloadToEndpointPfx, other, probe
 				}
 				res, reached := c10Run(t, l, entry, in, out)
-				desc := fmt.Sprintf("%s-workload dispatch (%s), probe interface %q (other interface %q)\nknown names: %v\nreached endpoint chains: %v verdict=%s final=%v\nrendered:\n%s",
-					dir, map[bool]string{false: "iptables", true: "nftables"}[nft], probe, other, known, reached, res.Verdict, res.Final, l.rs.Dump())
+				desc := func() string {
+					return fmt.Sprintf("%s-workload dispatch (%s), probe interface %q (other interface %q)\nknown names: %v\nreached endpoint chains: %v verdict=%s final=%v\nrendered:\n%s",
+						dir, map[bool]string{false: "iptables", true: "nftables"}[nft], probe, other, known, reached, res.Verdict, res.Final, l.rs.Dump())
+				}
 				if isKnown[probe] {
 					want := l.chain(pfx + probe)
 					if len(reached) != 1 || reached[0] != want {
-						t.Fatalf("C10 violated: known interface must be handed to exactly its own chain %q\n%s", want, desc)
+						t.Fatalf("C10 violated: known interface must be handed to exactly its own chain %q\n%s", want, desc())
 					}
 					if res.Verdict != nfsim.VerdictReturn {
-						t.Fatalf("C10 violated: dispatch itself issued a verdict for a known interface\n%s", desc)
+						t.Fatalf("C10 violated: dispatch itself issued a verdict for a known interface\n%s", desc())
 					}
 				} else if hasWlPrefix(probe) {
 					if len(reached) != 0 || res.Verdict != wantDeny {
-						t.Fatalf("C10 violated: unknown interface with a workload prefix must be dropped (%s) and reach no endpoint chain\n%s", wantDeny, desc)
+						t.Fatalf("C10 violated: unknown interface with a workload prefix must be dropped (%s) and reach no endpoint chain\n%s", wantDeny, desc())
 					}
 				}
 			}
@@ -468,25 +470,27 @@ func TestVerifC10HostDispatch(t *testing.T) {
 					in, out = "eth9", probe
 				}
 				res, reached := c10Run(t, l, d.entry, in, out)
-				desc := fmt.Sprintf("host dispatch chain %q (%s), probe interface %q, wildcard HEP configured: %v\nknown names: %v\nreached endpoint chains: %v verdict=%s\nrendered:\n%s",
-					d.entry, map[bool]string{false: "iptables", true: "nftables"}[nft], probe, wildcard, names, reached, res.Verdict, l.rs.Dump())
+				desc := func() string {
+					return fmt.Sprintf("host dispatch chain %q (%s), probe interface %q, wildcard HEP configured: %v\nknown names: %v\nreached endpoint chains: %v verdict=%s\nrendered:\n%s",
+						d.entry, map[bool]string{false: "iptables", true: "nftables"}[nft], probe, wildcard, names, reached, res.Verdict, l.rs.Dump())
+				}
 				if res.Verdict != nfsim.VerdictReturn {
-					t.Fatalf("C10 violated: host dispatch issued a verdict of its own\n%s", desc)
+					t.Fatalf("C10 violated: host dispatch issued a verdict of its own\n%s", desc())
 				}
 				switch {
 				case isKnown[probe]:
 					want := l.chain(rules.EndpointChainName(d.pfx, probe, maxLen))
 					if len(reached) != 1 || reached[0] != want {
-						t.Fatalf("C10 violated: known host interface must be sent to exactly its own chain %q\n%s", want, desc)
+						t.Fatalf("C10 violated: known host interface must be sent to exactly its own chain %q\n%s", want, desc())
 					}
 				case wildcard:
 					want := l.chain(rules.EndpointChainName(d.pfx, "any-interface-at-all", maxLen))
 					if len(reached) != 1 || reached[0] != want {
-						t.Fatalf("C10 violated: unknown interface must be sent to the wildcard host endpoint chain %q only\n%s", want, desc)
+						t.Fatalf("C10 violated: unknown interface must be sent to the wildcard host endpoint chain %q only\n%s", want, desc())
 					}
 				default:
 					if len(reached) != 0 {
-						t.Fatalf("C10 violated: no wildcard host endpoint configured, unknown interface must reach no endpoint chain\n%s", desc)
+						t.Fatalf("C10 violated: no wildcard host endpoint configured, unknown interface must reach no endpoint chain\n%s", desc())
 					}
 				}
 			}
